@@ -542,6 +542,35 @@ def wiring_obligations(ctx, rule):
                            "node before input._add_output(node) is called for every input "
                            "of every node", ok,
            detail=f"clear@{i_clear} set_model@{i_set} add@{i_add}", stmt="output wiring")
+    # the primitives the wiring is made of
+    prim = {}
+    for mname in ("_add_output", "_clear_outputs", "_unset_model", "_set_model"):
+        pf = method(repo, base, mname, own=True)
+        prim[mname] = (pf, evaluate(repo, pf))
+    pf, pr = prim["_add_output"]
+    outp = ("a", SELF, "_outputs")
+    sts = [(loc, val) for loc, val, _, cond in pr.stores if not cond]
+    p0 = n([a for a in pf.params() if a != "self"][0])
+    ok_add = (sts == [(outp, ("call", ("g", "liesel.model.nodes._unique_tuple"),
+                             (outp, ("list", (p0,))), ()))]
+              or sts == [(outp, ("op", "+", outp, ("tuple", (p0,))))])
+    ctx.ob(rule, pf, "_add_output appends the given node to this node's outputs (keeping "
+                     "what is there, no duplicates)", ok_add,
+           detail=str([(pretty(l_), short(v, 80)) for l_, v in sts]), stmt="_add_output body")
+    pf, pr = prim["_clear_outputs"]
+    sts = [(loc, val) for loc, val, _, cond in pr.stores if not cond]
+    ctx.ob(rule, pf, "_clear_outputs empties this node's outputs",
+           sts == [(outp, ("tuple", ()))], detail=str([(pretty(l_), short(v)) for l_, v in sts]),
+           stmt="_clear_outputs body")
+    rutf = repo.func("liesel.model.nodes._unique_tuple")
+    rut = evaluate(repo, rutf).ret()
+    ok_ut = (rut is not None and is_call(rut, "tuple") and len(rut[2]) == 1
+             and rut[2][0] == ("call", ("a", n("dict"), "fromkeys"),
+                               (("call", ("g", "itertools.chain"), (("star", n("args")),), ()),),
+                               ()))
+    ctx.ob(rule, rutf, "_unique_tuple keeps the first occurrence of every element, in order "
+                       "(dict.fromkeys over the chained arguments)", ok_ut,
+           detail=short(rut or (), 120), stmt="_unique_tuple body")
     heap = {loc[2]: val for loc, val, _, _ in ri.stores if loc[0] == "a" and loc[1] == SELF}
     ng = heap.get("_node_graph")
     sn = heap.get("_sorted_nodes")
